@@ -232,6 +232,7 @@ int vf_run_case(Src &s, Report &r) {
 	bool periodic = s.chance(1, 6);
 	int rc = 0;
 	std::vector<vbi_sliced> cycle;
+	unsigned l25_kind = 0;
 	for (unsigned op = 0; op < nops && !s.eof() && !rc; ++op) {
 		unsigned what = s.pick(10);
 		if (r.verbose) r.say(" op %u kind %u t=%.2f\n", op, what, st.t);
@@ -261,8 +262,9 @@ int vf_run_case(Src &s, Report &r) {
 				if (periodic) for (auto &x : f2) cycle.push_back(x);
 				st.t += 1 / 25.0;
 			}
-		} else if (what == 9 && s.chance(1, 2)) {	// a Level 2.5 neighbourhood, a few packets per frame
-			std::vector<tx::Packet> pk; unsigned l25_page = l25::gen_l25(s, pk, &st.recent);
+		} else if (what == 9 && (l25_kind = s.u8()) >= 64) {	// a Level 2.5 neighbourhood, a few packets per frame: MOT + POP + DRCS with random content, or a consistent object graph
+			std::vector<tx::Packet> pk; unsigned l25_page = l25_kind >= 128 ? l25::gen_l25(s, pk, &st.recent) : l25::gen_objgraph(s, pk, &st.recent);
+			if (l25_kind < 128) r.cls("level-2.5-object-graph");
 			size_t i = 0;
 			while (i < pk.size()) {
 				std::vector<vbi_sliced> f2; unsigned n = 1 + s.pick(12);
